@@ -156,7 +156,7 @@ class SymEx:
             if r == 'unsat':
                 self.claims.append(Claim(label, 'held', 'light'))
                 return True
-        r, m = c._check(neg)
+        r, m = c._check(neg, portfolio=True)
         if r == 'unsat':
             self.claims.append(Claim(label, 'held'))
             return True
@@ -192,30 +192,7 @@ class SymEx:
         return False
 
     def _guided(self, neg, tries=6):
-        import random
-        c = self.c
-        rng = random.Random(1234 + c.ex.seed)
-        names = [n for n, (k, v, lo, hi) in c.inputs.items() if k == 'real']
-        old_to = c.ex.query_timeout_ms
-        for t in range(tries):
-            frac = 0.5 if t < tries // 2 else 0.85
-            eqs = []
-            for n in names:
-                if rng.random() < frac:
-                    k, v, lo, hi = c.inputs[n]
-                    lo_ = -1.0 if lo is None else float(lo)
-                    hi_ = lo_ + 2.0 if hi is None else float(hi)
-                    val = rng.choice([lo_, hi_, (lo_ + hi_) / 2, rng.uniform(lo_, hi_),
-                                      round(rng.uniform(lo_, hi_), 1)])
-                    eqs.append(v == P._rv(P._fr(val)))
-            c.solver.set('timeout', 5000)
-            try:
-                r, m = c._check(neg, *eqs)
-            finally:
-                c.solver.set('timeout', old_to)
-            if r == 'sat':
-                return m
-        return None
+        return self.c.guided(neg, tries=tries)
 
     def _model(self, m):
         out = {}
@@ -604,7 +581,12 @@ def _run_path(c, h, case, twin):
         witness = None
         if err is None or err[0] == 'engine':
             try:
+                c.solver.set('timeout', min(c.ex.query_timeout_ms, 5000))
                 r, m = c._check()
+                c.solver.set('timeout', c.ex.query_timeout_ms)
+                if r == 'unknown':
+                    m = c.guided(tries=6)
+                    r = 'sat' if m is not None else 'unknown'
             except C.BudgetExceeded:
                 r = 'unknown'
             if r == 'sat':
